@@ -63,13 +63,21 @@ def run_generators():
         ok = rc == 0
     return ok, logtxt
 
+def gen_status():
+    """per-table outcome of the last translator run: {table: "ok" | reason}"""
+    try: return json.load(open(COQ + "/theories/Gen/status.json"))
+    except Exception: return {}
+
 def build_all(need_race=False):
     """Rebuild everything that depends on /repo's working tree or on /verif sources.
     Incremental; safe to call from concurrently running checks (flock)."""
     br = BuildResult()
     with Lock():
         t0 = time.time()
+        try: os.remove(COQ + "/theories/Gen/status.json")
+        except FileNotFoundError: pass
         br.gen_ok, br.gen_log = run_generators()
+        br.gen_status = gen_status()
         # Coq
         if not os.path.exists(COQ + "/Makefile") or os.path.getmtime(COQ + "/Makefile") < os.path.getmtime(COQ + "/_CoqProject"):
             sh("coq_makefile -f _CoqProject -o Makefile", cwd=COQ)
@@ -277,7 +285,23 @@ def load_corpus(prop):
                     out.append({"id": s[1], "kind": s[2], "args": s[3:], "line": ln, "corpus": True})
     return out
 
-def run_impl_robust(cases, batch=300, timeout=60, env=None):
+def _limit_as(mem_kb):
+    def f():
+        import resource
+        resource.setrlimit(resource.RLIMIT_AS, (mem_kb * 1024, mem_kb * 1024))
+    return f
+
+def run_impl_parallel(cases, procs=8, batch=50, timeout=120, mem_kb=None):
+    """run_impl_robust over `procs` harness processes."""
+    from concurrent.futures import ThreadPoolExecutor
+    shards = [cases[i::procs] for i in range(procs)]
+    results, culprits = {}, []
+    with ThreadPoolExecutor(procs) as ex:
+        for r, c in ex.map(lambda sh: run_impl_robust(sh, batch, timeout, mem_kb=mem_kb), shards):
+            results.update(r); culprits.extend(c)
+    return results, culprits
+
+def run_impl_robust(cases, batch=300, timeout=60, env=None, mem_kb=None):
     """Runs cases in batches with per-case flushing; when the harness hangs or dies, the first
     case without a result is the culprit and the run resumes after it.
     Returns (results dict, list of (case, 'hang'|'crash'))."""
@@ -288,7 +312,8 @@ def run_impl_robust(cases, batch=300, timeout=60, env=None):
         chunk, todo = todo[:batch], todo[batch:]
         data = "\n".join(c["line"] for c in chunk) + "\n"
         try:
-            p = subprocess.run([HARNESS + "/ugoh"], input=data, capture_output=True, text=True, timeout=timeout, env=env)
+            p = subprocess.run([HARNESS + "/ugoh"], input=data, capture_output=True, text=True, timeout=timeout, env=env,
+                               preexec_fn=_limit_as(mem_kb) if mem_kb else None)
             out, how = p.stdout, "crash"
         except subprocess.TimeoutExpired as e:
             out = e.stdout.decode() if isinstance(e.stdout, bytes) else (e.stdout or "")
